@@ -124,6 +124,8 @@ function strLiteral(v, st) {
       // (astral characters are never spelt as surrogate-pair escapes: the compiler documents them as illegal)
     }
     out += esc === null ? ch : esc
+    // a line continuation (backslash + line terminator) denotes nothing
+    if (rng && st.spacing && !st.noNewline && rng.bool(0.015)) out += '\\' + rng.pick(['\n', '\r\n', '\u2028', '\r'])
   }
   return out + q
 }
